@@ -10,7 +10,8 @@ DECIDES = ('For word sizes 8 and 12 (a power of two and not) and both bit orders
            'word_size - 1; (b) the receive shifter takes sdi at the LSB end for MSB-first (MSB end for LSB-first) on the '
            'sample edge only, the transmit shifter emits its MSB (LSB) on the output edge only, both only while chip '
            'select is active; (c) the completed word is copied to word_in together with a one-cycle word_complete, and '
-           'word_out is loaded into the transmit shifter on word completion and while chip select is inactive. ')
+           'word_out is loaded into the transmit shifter on word completion and while chip select is inactive. '
+           'The gate of the bit counting is chip select itself, not a registered copy (alignment with the clock-edge detectors). ')
 NOT_DECIDED = 'the SPI clock edge detection timing relative to the system clock.'
 
 
